@@ -295,10 +295,13 @@ func verifyFunc(p *Program, cx *Contracts, cfg *PropConfig, ct *Contract) *FuncR
 	st := newState()
 	var args []Val
 	vars := map[string]Val{}
-	for _, prm := range fn.Params {
+	for i, prm := range fn.Params {
 		v := e.symbolic(st, prm.Type(), prm.Name())
 		args = append(args, v)
 		vars[prm.Name()] = v
+		if ct.renameTo != nil && i < len(ct.renameTo) {
+			vars[ct.renameTo[i]] = v // interface contract's parameter names
+		}
 	}
 	// a context.Context parameter of a message server carries the sdk.Context: create its world up front
 	for i, prm := range fn.Params {
@@ -367,6 +370,9 @@ func verifyFunc(p *Program, cx *Contracts, cfg *PropConfig, ct *Contract) *FuncR
 		}
 		bindResults(post.vars, fn.Signature, o.res)
 		for _, en := range ct.Ensures {
+			if en.Names {
+				continue
+			}
 			g := post.evalBool(en.Expr)
 			if e.err != nil {
 				// a clause that cannot be evaluated on this path is reported as undecided, the others are still checked
@@ -467,4 +473,41 @@ func (e *Env) frameObligations(st, old *State, ct *Contract, pre *cenv, args []V
 			e.oblige(st, "frame", comp+"-unchanged", tEq(cur, was), "component "+comp+" is not in the modifies clause", ct.Fn.Pos())
 		}
 	}
+}
+
+// verifyImpl checks a concrete method against the contract of the interface method it implements:
+// the interface contract's ensures (and nopanic) must hold for the implementation's body.
+func verifyImpl(p *Program, cx *Contracts, cfg *PropConfig, ict *Contract, fn *ssa.Function, implKey string) *FuncResult {
+	// a synthetic contract: the interface clauses bound to this function, parameters renamed positionally
+	own := cx.byFn[fn]
+	syn := &Contract{Key: lastKey(implKey), PkgPath: ict.PkgPath, Fn: fn, Requires: ict.Requires, Ensures: ict.Ensures, Modifies: ict.Modifies, Lets: ict.Lets, LetOrder: ict.LetOrder,
+		NoPanic: ict.NoPanic, Invariants: map[int][]Clause{}, Continues: map[int][]Clause{}, Unroll: map[int]int{}, File: ict.File, Params: ict.Params}
+	if own != nil {
+		syn.Invariants, syn.Continues, syn.Unroll = own.Invariants, own.Continues, own.Unroll
+	}
+	cx.byFn[fn] = syn
+	defer func() {
+		if own != nil {
+			cx.byFn[fn] = own
+		} else {
+			delete(cx.byFn, fn)
+		}
+	}()
+	syn.renameTo = ict.Params
+	res := verifyFunc(p, cx, cfg, syn)
+	res.Key = implKey + " against " + ict.Key
+	for _, o := range res.Obls {
+		o.Fn = implKey
+		if o.Kind == "post" {
+			o.Kind = "iface"
+		}
+	}
+	return res
+}
+
+func lastKey(k string) string {
+	if i := strings.Index(k, ".("); i >= 0 {
+		return k[i+1:]
+	}
+	return k
 }
